@@ -13,6 +13,7 @@ from dalimc.spec import memory_layout as M
 ID = "C11"
 OPTIMISED_STRIDE = {"quick": 12, "thorough": 24}      # every k-th shard once more in an interpreter started with -O
 TRACE_STRIDE = {"quick": 12, "thorough": 24}      # every k-th shard once more with logging enabled down to TRACE
+BYTEORDER_STRIDE = {"quick": 16, "thorough": 32}      # every k-th shard once more with sys.byteorder reporting a big-endian host
 LEVEL = "exploration"
 ENGINE = "E1"
 TECHNIQUE = "exhaustive enumeration of raw byte strings (complete for 1- and 2-byte values) through the real interpreter vs a reference decoder; literal layout table comparison"
